@@ -61,7 +61,9 @@ func vpRecord(tag string, N, txt, ints, blocks int) *BED {
 			b.ItemRGB = [3]byte{0, 255, 7}
 		}
 	}
-	if N > 11 {
+	if N > 9 {
+		// the block lists are consistent with the block count in the record
+		// (for N = 10 and 11 they are only partly written)
 		b.BlockCount = blocks
 		for i := 0; i < blocks; i++ {
 			b.BlockSizes = append(b.BlockSizes, vpSymInt(tag+"bs"+vpDigit(i), ints&32 != 0, 40+i))
@@ -80,6 +82,19 @@ func vpSameInts(a, b []int) bool {
 		ok = ok && a[i] == b[i]
 	}
 	return ok
+}
+
+// vpFirstN is b with every field beyond its first N zeroed: what reading the
+// written line must give back.
+func vpFirstN(b *BED) *BED {
+	c := *b
+	if c.N < 12 {
+		c.BlockStarts = nil
+	}
+	if c.N < 11 {
+		c.BlockSizes = nil
+	}
+	return &c
 }
 
 func vpSameBED(a, b *BED) bool {
@@ -137,7 +152,7 @@ func VP_C04_RoundTrip() {
 	vpAssert(len(got) == nrec, "as many records as were written")
 	ok := len(got) == nrec
 	for i := 0; ok && i < nrec; i++ {
-		ok = !got[i].err && vpSameBED(got[i].b, recs[i])
+		ok = !got[i].err && vpSameBED(got[i].b, vpFirstN(recs[i]))
 	}
 	vpAssert(ok, "same N, same first N fields, remaining fields zero")
 	vpObserveBytes("text", w.b)
